@@ -57,7 +57,7 @@ def safe_consts(rng, fs):
 
 def make_clean(rng, fs, gctx):
     """restrict a generated file set to constructs outside every known class: integer constants,
-    hierarchies of any depth, typed object arrays, no object reached through a nested struct,
+    hierarchies of any depth, typed object arrays,
     parameter names p0.."""
     idx = iface_index(fs)
     def nested_obj(t):
@@ -78,8 +78,6 @@ def make_clean(rng, fs, gctx):
                     ps = []
                     for (dr, t, sh, pn) in m[2]:
                         if t == "interface" and sh:
-                            continue
-                        if nested_obj(t):
                             continue
                         if t in gctx.structs and gctx.structs[t]["objs"] > 0 and gctx.structs[t]["size"] <= 16:
                             continue        # a small object-bearing struct is bundled with its handle (C02 K_interleave class)
@@ -178,7 +176,6 @@ CLASSES = [
     ("K_rust_float_int_literal", ("rust",), lambda F, u: F["float_int_literal"], r"mismatched types|expected `f(32|64)`, found integer|E0308"),
     ("K_cpp_untyped_objarr", ("cpp",), lambda F, u: F["untyped_objarr"] or (u and F["objarr"]), r"has no member named '(get|consume)'|no member named '(get|consume)'|ProxyBase|Object"),
     ("K_untyped_drops_const", ("c",), lambda F, u: u and F["objarr"], r"discards 'const' qualifier|discarded-array-qualifiers|discards qualifiers"),
-    ("K_nested_obj_path", ("cpp",), lambda F, u: F["nested_obj_path"], r"base operand of '->'|member reference type .* is not a pointer"),
 ]
 
 
